@@ -390,6 +390,11 @@ def run(ck):
     check_b(ck, repo)
     check_c(ck, repo)
     check_d(ck, repo)
+    from .sem import share_clauses
+
+    share_clauses(ck, "c04", {
+        "C04.b": ("C10.e", "the read-side traversals (predict, predict_proba, decision_path, get_leaves_index) store nothing on the estimator: no cache survives a refit"),
+    }, keep=lambda o: o.file.endswith("decision_tree_logreg.py"))
     ck.require_count("C10.a", 16, "normal-form predicates at 4 sites, complements, probability sources, recursion rows and guards")
     ck.require_count("C10.b", 6, "4 pairs, own column, child calls, public allocation")
     ck.require_count("C10.c", 16, "child construction, guards, index arithmetic, n_nodes_, defaults, terminal test")
